@@ -385,6 +385,17 @@ func (m *metadataAPI) CreateStream(ctx context.Context, req *proto.CreateStreamO
 
 	req.Stream.CreationTimestamp = time.Now().UnixNano()
 
+	// If the stream doesn't say whether it's encrypted, record the server
+	// default with it. This determines how the values in the partition logs
+	// are read, so it must not follow later changes to the server
+	// configuration or differ between replicas.
+	if req.Stream.Config == nil {
+		req.Stream.Config = new(proto.StreamConfig)
+	}
+	if req.Stream.Config.Encryption == nil {
+		req.Stream.Config.Encryption = &proto.NullableBool{Value: m.config.Streams.Encryption}
+	}
+
 	// Replicate stream create through Raft.
 	op := &proto.RaftLog{
 		Op:             proto.Op_CREATE_STREAM,
